@@ -397,7 +397,27 @@ func TestVerifC20(t *testing.T) {
 			extra := []int{0, 0, 1, 3, 43}[i%5]
 			full := make([]int, 257+extra)
 			out := full[:257]
-			p, msg, _, _ := hk.Try(func() { DecomposeNAF(full, s, 257, ww) })
+			// every seventh input lies in READ-ONLY memory (a constant, a key in a protected page): the recoding reads its
+			// input, it does not write to it - not even to put it back afterwards (another goroutine may be reading it)
+			var ro *hk.GBuf
+			if i%7 == ww%7 {
+				ro = hk.NewGuarded(len(s), []int{hk.PlaceEnd, hk.PlaceStart}[i%2])
+				copy(ro.B, s)
+				ro.ReadOnly()
+				s = ro.B
+			}
+			p, msg, isFault, _ := hk.Try(func() { DecomposeNAF(full, s, 257, ww) })
+			if ro != nil {
+				s = inputs[i]
+				if p && isFault {
+					r.Violation(fmt.Sprintf("naf-writes-to-its-input:w=%d", ww), hk.D{"s": hk.Hex(s), "w": ww, "panic": msg})
+				}
+				ro.Writable()
+				ro.Free()
+				if p {
+					return
+				}
+			}
 			for _, v := range full[257:] {
 				if v != 0 && !p {
 					r.Violation(fmt.Sprintf("naf-writes-beyond-n-digits:w=%d", ww), hk.D{"s": hk.Hex(s), "w": ww, "buffer_len": len(full)})
